@@ -41,21 +41,6 @@ def nontrivial(impl):
     return conn and done
 
 
-KF_STALE = "F40"
-
-
-def known_trigger(kf, r, fails):
-    """F40: acceptor::close() keeps the queued connections; after re-open + bind to ANOTHER endpoint the next accept
-    is handed the stale connection (local endpoint != dialled endpoint, then channel::remote_idx() finds neither end)"""
-    if kf.get("id") != KF_STALE: return False
-    try:
-        if any(c not in ("c07-accepted-local", "c07-view-missing", "c07-accept-peer") for c, _ in fails): return False
-        an = handshake.analyse(r["impl"] or [], r["scn"])
-        return bool(handshake.stale_accepts(an))
-    except Exception:
-        return False
-
-
 MIX = [("hs", 4), ("refuse", 2), ("natmix", 2), ("net:tcp", 1), ("net:mixed", 1)]
 
 
@@ -71,7 +56,7 @@ class Check(ScenarioCheck):
 CHECK = Check(
     "C07", ["SimVerif.Props.C07"], "kernel", gen, spec_c07, nontrivial,
     "gen/hs_gen.py families hs (1-2 acceptors x 1-5 clients; accept before/after SYN arrival, bursts at one instant, more connects than accepts and vice versa, accept / accept_ep / accept_new, re-accept into a reused socket, acceptor close/close0/cancel/re-open in mid-flight), refuse (no socket; bound not listening; closed/close0/destroyed acceptor; listen after connect; other port / other address of a multi-homed node; wildcard acceptor dialled on the second address; remote/local/read/write on the refused socket; re-connect to a live acceptor), natmix (client-side NAT, both sides, several nodes behind one external address, UDP alongside) plus net_gen tcp/mixed; v4/v6, multi-homed nodes, instant and slow routes; local/remote queried in every connect and accept handler; both-direction data with per-socket stream ids. non-trivial = a connect whose SYN reached an acceptor's probe or that was refused; distinct = distinct implementation trace",
-    TRUSTED, ASSUME, known_trigger=known_trigger, spec_scn=True)
+    TRUSTED, ASSUME, spec_scn=True)
 
 
 def run(tier, seed, replay):
